@@ -68,6 +68,12 @@ func (p v12Pos) id() [16]byte {
 
 func (p v12Pos) String() string { return fmt.Sprintf("%d/%d@%d", p.Index, p.Offset, p.Time) }
 
+// v12OffsetMajor probes the comparison function with the canonical pair of the known finding: a log that
+// rotated to file 2 (offset 0) against one that is still in file 1 (offset 5).
+func v12OffsetMajor(mgr *ArbiterManager) bool {
+	return mgr.CompareAofId(v12Pos{Index: 2}.id(), v12Pos{Index: 1, Offset: 5}.id()) < 0
+}
+
 // v12PosCmp is the model order of log positions inside one case: positions are compared by their
 // forward distance from the case's origin file index (so a file index that wrapped past 2^32 is
 // newer), then by command time. All positions of a case lie within 2^30 files of the origin, far
@@ -169,12 +175,18 @@ func (c *v12Case) fingerprint() uint64 {
 }
 
 type v12Info struct {
-	nontrivial         bool
-	classes            map[string]bool
-	skipped            int // forgetful restarts skipped (known finding excluded)
-	skippedForeign     int // rounds given up instead of committing a foreign number (known finding excluded)
-	toleratedOverwrite int
-	toleratedClear     int
+	nontrivial     bool
+	classes        map[string]bool
+	skipped        int            // forgetful restarts skipped (known finding excluded)
+	skippedForeign int            // rounds given up instead of committing a foreign number (known finding excluded)
+	tolerated      map[string]int // oracle verdicts withheld because their cause is a listed known finding
+}
+
+func (i *v12Info) tolerate(key string) {
+	if i.tolerated == nil {
+		i.tolerated = map[string]int{}
+	}
+	i.tolerated[key]++
 }
 
 func (i *v12Info) class(c string) {
@@ -400,8 +412,8 @@ func (cl *v12Cluster) boot(i int) *v12Err {
 		switch {
 		case j == i:
 			am.status = ARBITER_MEMBER_STATUS_ONLINE
-			if m.Arbiter == 0 {
-				am.aofId = m.Pos.id()
+			if m.Arbiter == 0 && m.Polled {
+				am.aofId = m.Pos.id() // refreshed by the member's own status tick (every 2 s); zero right after a start
 			}
 		case mj.Down:
 			am.status = ARBITER_MEMBER_STATUS_OFFLINE
@@ -468,7 +480,7 @@ func v12RunPure(c *v12Case) (v12Info, *v12Err) {
 			case sb != sa:
 				swapped = 1
 			}
-			if swapped == ba && a.Index != b.Index {
+			if swapped == ba && a.Index != b.Index && v12OffsetMajor(mgr) {
 				return info, v12Fail(v12KeyCmpOrder, "CompareAofId(b=%s, a=%s) = %d, want %d: b is a advanced by %#x (file index, then offset), but the result is what comparing (offset, then file index) gives",
 					b, a, ba, want, p.Dist)
 			}
@@ -700,11 +712,10 @@ func v12Prop(test string, gen func(t *rapid.T) *v12Case, run func(c *v12Case) (v
 		for i := 0; i < info.skippedForeign; i++ {
 			st.Exclude("round abandoned instead of committing an overwritten proposal number: known finding " + v12KeyForeign)
 		}
-		for i := 0; i < info.toleratedOverwrite; i++ {
-			st.Exclude("candidate's own accepted number overwritten by DoProposal tolerated: known finding " + v12KeyOwnOverwrite)
-		}
-		for i := 0; i < info.toleratedClear; i++ {
-			st.Exclude("two-winner judgement suspended after a failed DoCommit erased a foreign pending commit: known finding " + v12KeyForeignClear)
+		for _, k := range v12CauseOrder {
+			for i := 0; i < info.tolerated[k]; i++ {
+				st.Exclude("verdict withheld, consequence of known finding " + k)
+			}
 		}
 		st.Case(info.nontrivial, c.fingerprint(), info.classList(), func() interface{} { return c })
 		if err != nil {
@@ -788,8 +799,13 @@ type v12Monitor struct {
 	recorded  map[string]map[int]bool
 	winners   []string
 	forgot    []string // restarts after which a member's numbers went backwards
-	forgotAt  map[int]bool
 	softFails []*v12Err
+	// causes: defects observed earlier in the execution (key -> descriptions) and the members whose acceptor state
+	// they corrupted; a later oracle failure at such a member (or a second winner) is reported under the cause's
+	// key, and withheld when the case tolerates that key (the finding is listed as known)
+	causes    map[string][]string
+	taintAt   map[int]string
+	tolerate  map[string]bool
 	voterMode bool // layer 3: winners are judged by DoCommit's result, not by recorded majorities alone
 }
 
@@ -801,7 +817,8 @@ func (m *v12Monitor) conclude(label string) {
 }
 
 func v12NewMonitor(cl *v12Cluster, info *v12Info) *v12Monitor {
-	m := &v12Monitor{cl: cl, info: info, recorded: map[string]map[int]bool{}, forgotAt: map[int]bool{}}
+	m := &v12Monitor{cl: cl, info: info, recorded: map[string]map[int]bool{}, causes: map[string][]string{}, taintAt: map[int]string{},
+		tolerate: map[string]bool{v12KeyForeign: cl.c.SkipForeignCommit, v12KeyOwnOverwrite: cl.c.TolerateOwnOverwrite, v12KeyForeignClear: cl.c.TolerateForeignClear}}
 	for range cl.c.Members {
 		m.acked = append(m.acked, map[uint64]string{})
 		m.open = append(m.open, map[string]int{})
@@ -821,15 +838,43 @@ func (m *v12Monitor) history() string {
 	return strings.Join(t, "; ")
 }
 
-// restartKey: once a member has forgotten numbers in a restart, later consequences at that member belong
-// to the restart finding.
-func (m *v12Monitor) keyFor(def string, members ...int) string {
+var v12CauseOrder = []string{v12KeyRestart, v12KeyForeignClear, v12KeyForeign, v12KeyOwnOverwrite}
+
+// cause notes a defect that corrupted member i's acceptor state.
+func (m *v12Monitor) cause(key string, i int, desc string) {
+	m.causes[key] = append(m.causes[key], desc)
+	if _, ok := m.taintAt[i]; !ok {
+		m.taintAt[i] = key
+	}
+	m.logf("(%s)", desc)
+}
+
+// blame: the key an oracle failure at these members is reported under, and whether the verdict is withheld.
+func (m *v12Monitor) blame(def string, members ...int) (string, bool) {
 	for _, i := range members {
-		if m.forgotAt[i] {
-			return v12KeyRestart
+		if k, ok := m.taintAt[i]; ok {
+			return k, m.tolerate[k]
 		}
 	}
-	return def
+	return def, false
+}
+
+// blameAny: same for a global verdict (second winner).
+func (m *v12Monitor) blameAny(def string) (string, bool) {
+	for _, k := range v12CauseOrder {
+		if len(m.causes[k]) > 0 {
+			return k, m.tolerate[k]
+		}
+	}
+	return def, false
+}
+
+func (m *v12Monitor) causeList() string {
+	var out []string
+	for _, k := range v12CauseOrder {
+		out = append(out, m.causes[k]...)
+	}
+	return strings.Join(out, " | ")
 }
 
 func (m *v12Monitor) afterProposal(label string, cand, to int, pid uint64, pos v12Pos, pre, post v12AccState, ok bool, why string) *v12Err {
@@ -856,18 +901,26 @@ func (m *v12Monitor) afterProposal(label string, cand, to int, pid uint64, pos v
 	}
 	m.info.class("proposal accepted")
 	if !(pid > pre.proposalId && pid > pre.commitId && pre.host == "") {
-		return v12Fail(m.keyFor(v12KeyAcceptor, to), "member %d accepted proposal n=%d in state %s (needs n > accepted, n > committed, no outstanding commit) [%s]", to, pid, pre, m.history())
+		key, withheld := m.blame(v12KeyAcceptor, to)
+		if !withheld {
+			return v12Fail(key, "member %d accepted proposal n=%d in state %s (needs n > accepted, n > committed, no outstanding commit) [%s]", to, pid, pre, m.history())
+		}
+		m.info.tolerate(key)
 	}
 	if post.proposalId != pid || post.commitId != pre.commitId || post.host != pre.host {
 		return v12Fail(v12KeyAcceptor, "member %d accepted proposal n=%d: state %s -> %s [%s]", to, pid, pre, post, m.history())
 	}
 	if prev, dup := m.acked[to][pid]; dup && prev != label {
-		return v12Fail(m.keyFor(v12KeyTwice, to), "member %d acknowledged proposal number %d to %s and again to %s [%s]", to, pid, prev, label, m.history())
+		key, withheld := m.blame(v12KeyTwice, to)
+		if !withheld {
+			return v12Fail(key, "member %d acknowledged proposal number %d to %s and again to %s [%s]", to, pid, prev, label, m.history())
+		}
+		m.info.tolerate(key)
 	}
 	m.acked[to][pid] = label
 	if mem.Arbiter == 0 && v12PosCmp(m.cl.c.Origin, mem.Pos, pos) > 0 {
 		key := v12KeyNewerLog
-		if m.cl.nodes[to].mgr.CompareAofId(mem.Pos.id(), pos.id()) <= 0 {
+		if mgr := m.cl.nodes[to].mgr; mgr.CompareAofId(mem.Pos.id(), pos.id()) <= 0 && v12OffsetMajor(mgr) {
 			key = v12KeyCmpOrder // consequence of the comparison function ordering these two positions the other way round
 		}
 		return v12Fail(key, "member %d (log %s) accepted a proposal for older log position %s [%s]", to, mem.Pos, pos, m.history())
@@ -888,8 +941,12 @@ func (m *v12Monitor) afterCommit(label string, cand, to int, pid uint64, host st
 		return nil
 	}
 	m.info.class("commit recorded")
-	if pre.proposalId != pid || pre.commitId >= pid {
-		return v12Fail(m.keyFor(v12KeyAcceptor, to), "member %d recorded commit n=%d in state %s (only the accepted number, once) [%s]", to, pid, pre, m.history())
+	if pre.proposalId != pid || pre.commitId >= pid || pre.host != "" {
+		key, withheld := m.blame(v12KeyAcceptor, to)
+		if !withheld {
+			return v12Fail(key, "member %d recorded commit n=%d in state %s (only the accepted number, once, never over a pending commit) [%s]", to, pid, pre, m.history())
+		}
+		m.info.tolerate(key)
 	}
 	if post.commitId != pid || post.proposalId != pid || post.host != host || post.from != v12Host(cand) {
 		return v12Fail(v12KeyAcceptor, "member %d recorded commit n=%d host=%s from m%d as %s [%s]", to, pid, host, cand, post, m.history())
@@ -905,12 +962,14 @@ func (m *v12Monitor) afterCommit(label string, cand, to int, pid uint64, host st
 			m.info.class("two recorded commit majorities (at most one candidate may succeed)")
 		}
 		if len(m.winners) > 1 && !m.voterMode {
-			key := v12KeyTwoWin
-			if len(m.forgot) > 0 {
-				key = v12KeyRestart
+			key, withheld := m.blameAny(v12KeyTwoWin)
+			if withheld {
+				m.info.tolerate(key)
+				m.winners = m.winners[:1]
+				return nil
 			}
-			return v12Fail(key, "two candidacies gathered commit majorities in one election: %s; members that restarted and forgot numbers: %v [%s]",
-				m.describeWinners(), m.forgot, m.history())
+			return v12Fail(key, "two candidacies gathered commit majorities in one election: %s; earlier defects in this execution: [%s] [%s]",
+				m.describeWinners(), m.causeList(), m.history())
 		}
 	}
 	return nil
@@ -949,7 +1008,7 @@ func (m *v12Monitor) restart(i int) (bool, *v12Err) {
 	m.info.class("restart executed")
 	if post.proposalId < pre.proposalId || post.commitId < pre.commitId || (pre.host != "" && post.host == "") {
 		m.forgot = append(m.forgot, fmt.Sprintf("m%d %s -> %s", i, pre, post))
-		m.forgotAt[i] = true
+		m.cause(v12KeyRestart, i, fmt.Sprintf("m%d restarted and forgot %s -> %s", i, pre, post))
 		m.info.class("restart forgot numbers")
 		m.softFails = append(m.softFails, v12Fail(v12KeyRestart,
 			"member %d restarted from its saved metadata and its numbers went backwards: %s -> %s (meta.pb holds commit id %d; accepting a proposal / commit is not persisted) [%s]",
